@@ -1059,6 +1059,8 @@ pub fn run_fuzz(target: &str, seed: u64, runs_per_job: u64, jobs: usize, max_len
                 format!("-max_len={max_len}"),
                 format!("-artifact_prefix={arts}"),
                 "-print_final_stats=1".to_string(),
+                // whichever comes first: the run count or ten minutes per job
+                "-max_total_time=600".to_string(),
             ])
             .stdout(std::process::Stdio::null())
             .stderr(std::process::Stdio::piped())
